@@ -490,8 +490,8 @@ func c07Run(c *fw.Ctx) fw.Outcome {
 			a1 := int64(r.Range(1, 100)) * 1e9
 			a2 := a1 + int64(r.Range(10, 3000))*1e9
 			sl := fw.Pick(r, c15Slopes)
-			d1 := a1*sl[0]/sl[1] + int64(r.Range(1, 5))*1e9 // instant 0 maps to a positive instant
-			op.Lin = [4]int64{a1, d1, a2, d1 + (a2-a1)*sl[0]/sl[1]}
+			d1 := mulDiv(a1, sl[0], sl[1]) + int64(r.Range(1, 5))*1e9 // instant 0 maps to a positive instant
+			op.Lin = [4]int64{a1, d1, a2, d1 + mulDiv(a2-a1, sl[0], sl[1])}
 		}
 		ops = append(ops, op)
 	}
